@@ -421,7 +421,7 @@ pub fn finish(ctx: &Ctx, mut rep: Report, spec: Spec<'_>) -> ! {
     }
 
     if !fresh.is_empty() {
-        let dir = format!("{VERIF_ROOT}/replays");
+        let dir = std::env::var("LV_REPLAY_DIR").unwrap_or_else(|_| format!("{VERIF_ROOT}/replays"));
         let _ = std::fs::create_dir_all(&dir);
         let mut seen: BTreeSet<&str> = BTreeSet::new();
         for v in fresh {
